@@ -991,6 +991,45 @@ def clamp(x, min=None, max=None):
     return _ew1(f, x)
 clip = clamp
 @api
+def count_nonzero(x, dim=None):
+    nz = ne(x, 0) if x._k != 'b' else x
+    return sum(nz.to(int64), dim) if dim is not None else sum(nz.to(int64))
+@api
+def diff(x, n=1, dim=-1, prepend=None, append=None):
+    if prepend is not None or append is not None: raise EngineGap("diff with prepend/append")
+    r = x
+    for _ in range(_pyint(n)):
+        k = r._a.shape[dim]
+        hi = [slice(None)] * r._a.ndim; lo = list(hi); hi[dim] = slice(1, k); lo[dim] = slice(0, k - 1)
+        r = sub(_mk(r._a[tuple(hi)], r._k), _mk(r._a[tuple(lo)], r._k))
+    return r
+@api
+def bitwise_left_shift(x, y):
+    def f(a, b):
+        a, b = _sc(a), _sc(b)
+        if not (isinstance(a, _pyint) and isinstance(b, _pyint)): raise EngineGap("bitwise shift of a symbolic value")
+        return a << b
+    return _ew2(f, x, y, 'i')
+@api
+def softmax(x, dim=-1, dtype=None):
+    e = exp(sub(x, amax(x, dim, True))) if False else exp(x)
+    return div(e, sum(e, dim, True))
+@api
+def pad(x, pad, mode='constant', value=None):
+    """torch.nn.functional.pad, constant mode: pad = (left_last, right_last, left_2nd_last, right_2nd_last, ...)"""
+    if mode != 'constant': raise EngineGap(f"pad mode {mode}")
+    v = Frac.const(0) if value is None else Frac.of(_sc(value))
+    if x._k != 'f': v = 0 if value is None else value
+    widths = [(0, 0)] * x._a.ndim
+    pad = [_pyint(p) for p in pad]
+    for i in range(len(pad) // 2):
+        widths[x._a.ndim - 1 - i] = (pad[2 * i], pad[2 * i + 1])
+    if builtins.any(w < 0 for ws in widths for w in ws): raise EngineGap("negative pad")
+    out = np.empty(tuple(s_ + a + b for s_, (a, b) in zip(x._a.shape, widths)), dtype=object)
+    out[...] = v
+    out[tuple(slice(a, a + s_) for s_, (a, b) in zip(x._a.shape, widths))] = x._a
+    return _mk(out, x._k)
+@api
 def clamp_min(x, min): return clamp._impl(x, min=min)
 @api
 def clamp_max(x, max): return clamp._impl(x, max=max)
@@ -1117,10 +1156,17 @@ def chunk(x, chunks, dim=0):
     n = x._a.shape[dim]; size = -(-n // chunks)
     return split._impl(x, size, dim)
 @api
+def _take1(a, i, axis):
+    """a.take(i, axis) that keeps a 0-d object array (numpy hands back the bare object for a 1-d object array)"""
+    idx = [slice(None)] * a.ndim; idx[axis] = i
+    r = a[tuple(idx)]
+    if not isinstance(r, np.ndarray):
+        z = np.empty((), dtype=object); z[()] = r; r = z
+    return r
 def unbind(x, dim=0):
-    return tuple(_mk(np.take(x._a, i, axis=dim), x._k) for i in range(x._a.shape[dim]))
+    return tuple(_mk(_take1(x._a, i, dim), x._k) for i in range(x._a.shape[dim]))
 @api
-def select(x, dim, index): return _mk(np.take(x._a, index, axis=dim), x._k)
+def select(x, dim, index): return _mk(_take1(x._a, _pyint(index), dim), x._k)
 @api
 def narrow(x, dim, start, length):
     idx = [slice(None)] * x._a.ndim; idx[dim] = slice(start, start + length)
@@ -1389,7 +1435,7 @@ def _bind():
     g = globals()
     names = '''add sub mul div neg pow sin cos tan exp log sqrt atan arctan asin arcsin acos abs sign nan_to_num square
         reciprocal rsqrt gt ge lt le eq ne logical_not logical_and logical_or all any sum mean prod cumsum max min amax amin
-        argmax argmin clamp clip clamp_min clamp_max unsqueeze squeeze expand expand_as repeat repeat_interleave tile reshape view view_as flatten ravel transpose
+        argmax argmin clamp clip clamp_min clamp_max diff softmax bitwise_left_shift count_nonzero unsqueeze squeeze expand expand_as repeat repeat_interleave tile reshape view view_as flatten ravel transpose
         swapaxes swapdims permute movedim moveaxis t split chunk unbind select narrow index_select gather take_along_dim flip roll
         diagonal matmul mm bmm mv dot norm det inverse topk sort argsort median std var rad2deg where isnan isinf isfinite floor ceil round floor_divide remainder
         maximum minimum tril triu atan2 cross outer diag trace expm1 log1p vecdot multiply divide true_divide absolute'''.split()
